@@ -248,6 +248,21 @@ func oversizedCase() harness.Case {
 				settle(2 * time.Second)
 				got := w.nodes[2].col.Snapshot()
 				c.Add("evaluations", 1)
+				if dialSeam {
+					// the receiver still serves its healthy peer after it dropped the offender
+					w.nodes[1].send.Send(2, topic32("live"), []byte("healthy"), 2)
+					settle(5 * time.Second)
+					all := w.nodes[2].col.Snapshot()
+					okHealthy := false
+					for _, m := range all[min(len(got), len(all)):] {
+						if string(m.Data) == "healthy" && m.From == 1 {
+							okHealthy = true
+						}
+					}
+					if !okHealthy {
+						c.Violation("failing-peer-isolated", strings.ToLower(propName())+"-receiver-dead-after-broken-connection", fmt.Sprintf("after a connection announced %d bytes and was dropped, the receiver no longer delivered a healthy peer's message", announce), map[string]interface{}{"announce": announce})
+					}
+				}
 				if len(got) != 1 || string(got[0].Data) != "before" {
 					var ds []string
 					for _, m := range got {
@@ -260,6 +275,82 @@ func oversizedCase() harness.Case {
 			})
 			c.Add("executions", 1)
 			c.Outcome(fmt.Sprintf("oversized|%d", announce))
+		}
+	}}
+}
+
+// truncatedCase: an authenticated peer announces N bytes, sends fewer and ends its stream (cleanly, at
+// a record boundary, or by just closing). Nothing of the unfinished frame may be delivered - neither
+// the partial bytes nor an empty message -, and the receiver keeps serving its other peer.
+func truncatedCase() harness.Case {
+	return harness.Case{ID: "framing/truncated-then-closed", Run: func(c *harness.C) {
+		type tr struct {
+			announce, sent int
+			topic          bool
+		}
+		var trs []tr
+		for _, a := range []int{1, 10, 1000, 70000} {
+			for _, sn := range []int{0, 1, a / 2, a - 1} {
+				if sn < a && sn >= 0 {
+					trs = append(trs, tr{a, sn, false}, tr{a, sn, true})
+				}
+			}
+		}
+		for _, x := range trs {
+			x := x
+			c.Exec(fmt.Sprintf("[truncated] announce %d send %d topic=%v", x.announce, x.sent, x.topic))
+			bubble(c, func() {
+				w := newNet(3, false)
+				raw, _ := w.nodes[2].lis.DialRaw("truncating-peer")
+				conn := tls.Client(raw, w.pki.ClientConfig())
+				if err := conn.Handshake(); err != nil {
+					panic(err)
+				}
+				b, _ := netlib.Binding(conn)
+				h := comm.Handshake{TLSBinding: b, Identity: w.nodes[1].pair.Cert, Timestamp: time.Now().Unix()}
+				netlib.SignHandshake(&h, w.nodes[1].pair.Signer.(*ecdsa.PrivateKey))
+				conn.Write(netlib.FrameHandshake(h.Bytes()))
+				conn.Write(netlib.Frame(0, nil, []byte("before")))
+				var full []byte
+				if x.topic {
+					full = netlib.Frame(2, topic32("t"), bytes.Repeat([]byte{7}, x.announce))
+				} else {
+					full = netlib.Frame(0, nil, bytes.Repeat([]byte{7}, x.announce))
+				}
+				conn.Write(full[:len(full)-x.announce+x.sent])
+				settle(time.Second)
+				conn.Close() // TLS close_notify: a clean end of stream in the middle of a frame
+				settle(2 * time.Second)
+				// the receiver still serves another peer afterwards
+				s := sent{2, topic32("live"), []byte("after-from-3")}
+				w.nodes[3].send.Send(s.typ, s.topic, s.data, 2)
+				settle(5 * time.Second)
+				got := w.nodes[2].col.Snapshot()
+				c.Add("evaluations", 1)
+				var ds []string
+				okBefore, okAfter, extra := false, false, false
+				for _, m := range got {
+					ds = append(ds, fmt.Sprintf("from %d type %d %d bytes", m.From, m.Type, len(m.Data)))
+					switch {
+					case m.From == 1 && string(m.Data) == "before":
+						okBefore = true
+					case m.From == 3 && string(m.Data) == "after-from-3":
+						okAfter = true
+					default:
+						extra = true
+					}
+				}
+				rp := map[string]interface{}{"announce": x.announce, "sent": x.sent, "topic": x.topic}
+				if extra || !okBefore {
+					c.Violation("truncated-frame-not-delivered", "c17-truncated-frame-delivered", fmt.Sprintf("a frame announcing %d bytes of which %d were sent before the stream ended: received %v (expected the frame before it and nothing of the unfinished one)", x.announce, x.sent, ds), rp)
+				}
+				if !okAfter {
+					c.Violation("failing-peer-isolated", "c17-receiver-dead-after-broken-connection", fmt.Sprintf("after a peer's stream ended in the middle of a frame the receiver no longer delivered another peer's message (received %v)", ds), rp)
+				}
+				w.close()
+			})
+			c.Add("executions", 1)
+			c.Outcome(fmt.Sprintf("truncated|%d|%d|%v", x.announce, x.sent, x.topic))
 		}
 	}}
 }
@@ -560,7 +651,7 @@ func gen(c *harness.C) []harness.Case {
 		c.Note("c17-dial-seam", "tls.Dial could not be redirected on this tree: sender-side cases skipped")
 		return []harness.Case{oversizedCase()}
 	}
-	cases := []harness.Case{framingCase(c.Thorough()), oversizedCase()}
+	cases := []harness.Case{framingCase(c.Thorough()), oversizedCase(), truncatedCase()}
 	sets := [][]int{{2, 2}, {1, 1, 1}, {2, 1, 1}, {3, 2}}
 	if c.Thorough() {
 		sets = append(sets, []int{2, 2, 2}, []int{3, 3}, []int{3, 2, 2})
